@@ -396,7 +396,11 @@ def shim_available():
 
 
 KIND_OPS = {"exists": ("exists",), "open": ("openr",), "read": ("read",), "unlink": ("unlink",), "mkdir": ("mkdir",),
-            "create": ("openw", "link"), "write": ("write",), "dropexists": ("exists", "openr"), "dropunlink": ("unlink",)}
+            "create": ("openw", "link"), "write": ("write",), "dropexists": ("exists", "openr"), "dropunlink": ("unlink",),
+            "flock": ("flock",), "dropflock": ("flock",)}
+# set by run() from the translator: in the guarded shape of lock.rs the directory is created before the flock (the
+# model keeps its no-op `mkdir` step where it was), and the flock on `.renamify` is a scheduling point
+SHAPE = {"guarded": False}
 
 INITS = {
     # name -> (model initial-cell, injected file content as a function of name->pid, extra time for newcomers)
@@ -412,8 +416,10 @@ BLOCKED = ("eexist", "read-invalid")
 
 def relevant(ev):
     """calls on the lock path itself (not on the private `renamify.lock.<pid>.tmp`), the liveness probe, mkdir -p"""
-    return (ev.path.endswith("renamify.lock") or (ev.path2 or "").endswith("renamify.lock") or ev.op == "kill0"
-            or (ev.op == "mkdir" and ev.path == ".renamify"))
+    if ev.op == "funlock":
+        return False            # folded into the last guarded call (model and real process alike)
+    return (ev.path.endswith("renamify.lock") or (ev.path2 or "").endswith("renamify.lock") or ev.op in ("kill0", "flock")
+            or (ev.op == "mkdir" and ev.path == ".renamify" and not SHAPE["guarded"]))
 
 
 def classify_stderr(text):
@@ -530,7 +536,9 @@ def run_real_schedule(shim, init, n, schedule, model, held_age=None, cmds=None):
                 p = int(p)
                 name = f"P{p}"
                 done = ""
-                if kind in KIND_OPS:
+                if kind == "mkdir" and SHAPE["guarded"]:
+                    pass        # create_dir_all already happened, before the flock
+                elif kind in KIND_OPS:
                     ev = advance(name)
                     if ev is None or ev.op not in KIND_OPS[kind]:
                         obs["mismatch"] = {"step": len(obs["steps"]), "proc": p, "model_call": kind,
@@ -643,7 +651,13 @@ def real_schedules(ctx):
         line = common.run_model([" ".join(["locktrace", cell, str(now), spec, str(n)] + [str(x) for x in sched])])[0]
         return parse_model_state(line), line
 
-    def model_enum(cell, n, mode, spec="debug,exits"):
+    def model_enum(cell, n, mode, spec=None):
+        # In the guarded shape a process that waits for the flock cannot move, so the shape's own interleavings are
+        # few.  The regression cases are the interleavings of the UNGUARDED shape (the ones that used to produce the
+        # races): the same schedules are replayed on the guarded model and on the real processes, where a turn of a
+        # process that waits for the guard is one refused flock(LOCK_NB) attempt.
+        if spec is None:
+            spec = "debug,exits,unguarded,stalefirst" if SHAPE["guarded"] else "debug,exits"
         line = common.run_model([f"lockenum {cell} {FAKE_T0} {spec} {n} {mode}"])[0]
         cnt, _, rest = line.partition(" ")
         return [[int(x) for x in sch.split(",")] for sch in rest.split("|") if sch]
@@ -924,7 +938,10 @@ def table_from_translator(ctx):
         return None
     names = {"Plan": "plan", "Rename": "rename", "Apply": "apply", "Undo": "undo", "Redo": "redo", "Replace": "replace",
              "TestLock": "test-lock", "Search": "search", "Init": "init"}
-    ctx.cov["source_variant"] = {"abandon": lock["abandon"], "publish_by_link": lock["by_link"]}
+    ctx.cov["source_variant"] = {"abandon": lock["abandon"], "publish_by_link": lock["by_link"],
+                                 "guarded": lock["guarded"], "live_never_stale": lock["live_first"],
+                                 "lossy_read": lock["lossy"], "drop_checks": lock["drop_checks"]}
+    SHAPE["guarded"] = bool(lock["guarded"])
     return {names.get(r["cmd"], r["cmd"].lower()): r["locks"] for r in rows}
 
 
